@@ -567,12 +567,19 @@ func (s *Snapshot) Decode(buf []byte, r io.Reader) error {
 // When snapshots are shared by multiple threads, each thread should Open the
 // snapshot. This API internally tracks the reference count for the snapshot.
 func (s *Snapshot) Open() bool {
-	if atomic.LoadInt32(&s.refCount) == 0 {
-		return false
+	for {
+		refCount := atomic.LoadInt32(&s.refCount)
+		if refCount == 0 {
+			return false
+		}
+		verifYield(101, uint64(s.sn)) // verif: Open between test and add
+		// Take the reference only if the count is still what was tested: a
+		// plain add could resurrect a snapshot whose last reference was
+		// dropped in between, and retire it a second time later.
+		if atomic.CompareAndSwapInt32(&s.refCount, refCount, refCount+1) {
+			return true
+		}
 	}
-	verifYield(101, uint64(s.sn)) // verif: Open between test and add
-	atomic.AddInt32(&s.refCount, 1)
-	return true
 }
 
 // Close is the snapshot descructor
